@@ -30,11 +30,15 @@ BaseByName == UNCHANGED <<reg, nm>> /\ Step("base-by-name", 0, "value")
 BaseByValue == UNCHANGED <<reg, nm>> /\ Step("base-by-value", 0, "name")
 \* the value written by the XML / JSON writers and read back
 Write(i) == UNCHANGED <<reg, nm>> /\ Step("write", i, IF i \in reg THEN (IF nm[i] = 1 THEN "name:1" ELSE "name:2") ELSE "hex")
+\* payload types are registered for a vendor operation (another registry: operation number |-> Go types, whose names an application
+\* chooses freely - here they are those of a standard operation): names and numbers of the enumerations are untouched
+Payloads == UNCHANGED <<reg, nm>> /\ Step("payloads", 0, "ok")
 Next == /\ Len(hist) < MaxLen
         /\ \/ \E i \in Slots : (Register(i) \/ ByName(i) \/ ByValue(i) \/ Write(i))
            \/ Swap
            \/ BaseByName
            \/ BaseByValue
+           \/ Payloads
 Spec == Init /\ [][Next]_vars
 \* the registry is a bijection between registered slots and the names they carry, at every step
 Bijective == \A n \in Slots : Cardinality(Holder(n)) <= 1
